@@ -52,7 +52,7 @@ contract(G + 'TileGrid.tile', props=['C03'],
          must_fail='result[0] == 0')
 
 contract(G + 'TileGrid.limit_tile', props=['C16', 'C03', 'C09'],
-         types=dict(tile_coord='tuple[int,int,int|str]'), returns='opt[tuple[int,int,int]]',
+         types=dict(tile_coord='tuple[int,int,int|str]'), returns='opt[tuple[int,int,int|str]]',
          requires=['grid_wf(self)'],
          ensures=[
              """iff(result is not None,
